@@ -58,6 +58,22 @@ I3_USE_B = {'v0': 'from proj.ext.fmt import fmt\n\ndef ub() -> int:\n\treturn fm
 INCLUDE_DIRS = {'incl3': ['proj/', 'proj/ext/:ext_lib/']}
 INPUT_GLOBS['incl3'] = ['proj/*.py', 'proj/ext/*.py']
 
+# twins: two unrelated modules that define a class and a function of the same names; only one of the classes carries a C++
+# alias. Whatever a module's text says about 'Vector' must come from that module alone, whichever modules a run regenerates
+TW_A = {
+    'v0': "from rogw.tranp.compatible.cpp.embed import Embed\n\n@Embed.alias('FVector')\nclass Vector:\n\tdef size(self) -> int:\n\t\treturn 1\n\ndef make() -> Vector:\n\treturn Vector()\n",
+    'vS': "from rogw.tranp.compatible.cpp.embed import Embed\n\n@Embed.alias('FVector')\nclass Vector:\n\tdef size(self) -> int:\n\t\treturn 3\n\ndef make() -> Vector:\n\treturn Vector()\n",
+}
+TW_B = {
+    'v0': 'class Vector:\n\tdef size(self) -> int:\n\t\treturn 2\n\ndef make() -> Vector:\n\treturn Vector()\n',
+    'vS': 'class Vector:\n\tdef size(self) -> int:\n\t\treturn 4\n\ndef make() -> Vector:\n\treturn Vector()\n',
+}
+
+# swap3: an importer of two modules whose texts can trade places (both files change, the multiset of texts does not)
+SW_X = 'def first() -> int:\n\treturn 1\n\ndef second() -> int:\n\treturn 2\n'
+SW_Y = "def first() -> str:\n\treturn 'one'\n\ndef second() -> str:\n\treturn 'two'\n"
+SW_TOP = {'v0': 'from proj.sb import first\nfrom proj.sc import second\n\ndef run() -> None:\n\tx = first()\n\ty = x\n\tz = second()\n\tw = z\n\tprint(y, w)\n'}
+
 GRAPHS = {
     'pair': {'proj/a.py': A, 'proj/b.py': B},
     'chain3': {'proj/a.py': A, 'proj/b.py': B, 'proj/bb.py': C},
@@ -65,6 +81,8 @@ GRAPHS = {
     'chain3p': {'proj/bb.py': AP, 'proj/a.py': BP, 'proj/b.py': CP},
     'prefix3': {'proj/node.py': P3_NODE, 'proj/visitor.py': P3_VISITOR, 'proj/node_types.py': P3_TYPES},
     'incl3': {'proj/base.py': I3_BASE, 'proj/ext/fmt.py': I3_EXT, 'proj/usea.py': I3_USE_A, 'proj/useb.py': I3_USE_B},
+    'twins': {'proj/ta.py': TW_A, 'proj/tb.py': TW_B},
+    'swap3': {'proj/s.py': SW_TOP, 'proj/sb.py': {'v0': SW_X, 'vT': SW_Y}, 'proj/sc.py': {'v0': SW_Y, 'vT': SW_X}},
 }
 IMPORTS = {
     'pair': {'proj/b.py': ['proj/a.py']},
@@ -73,6 +91,8 @@ IMPORTS = {
     'chain3p': {'proj/a.py': ['proj/bb.py'], 'proj/b.py': ['proj/a.py']},
     'prefix3': {'proj/node.py': ['proj/visitor.py'], 'proj/visitor.py': ['proj/node_types.py']},
     'incl3': {'proj/usea.py': ['proj/base.py'], 'proj/useb.py': ['proj/ext/fmt.py']},
+    'twins': {},
+    'swap3': {'proj/s.py': ['proj/sb.py', 'proj/sc.py']},
 }
 
 
